@@ -171,18 +171,9 @@ impl Command {
 
         let mut len = tokens_new.len();
         while has_redirect_from {
-            if let Some(idx) = tokens_new.iter().position(|x| x.0.is_empty() && x.1 == "<") {
-                redirects_from_type = "<".to_string();
-                tokens_new.remove(idx);
-                len -= 1;
-                if len > idx {
-                    redirects_from_value = tokens_new.remove(idx).1;
-                    len -= 1;
-                }
-            }
-            if let Some(idx) = tokens_new.iter().position(|x| x.0.is_empty() && x.1 == "<<<") {
-                redirects_from_type = "<<<".to_string();
-                tokens_new.remove(idx);
+            // from left to right: the last one on the line is in effect
+            if let Some(idx) = tokens_new.iter().position(|x| x.0.is_empty() && (x.1 == "<" || x.1 == "<<<")) {
+                redirects_from_type = tokens_new.remove(idx).1;
                 len -= 1;
                 if len > idx {
                     redirects_from_value = tokens_new.remove(idx).1;
